@@ -32,6 +32,8 @@ def opts(tier):
     o.many_segments_p = 0.01
     o.p_none = 0.25
     o.max_chunks = 5
+    o.short_last_p = 0.08
+    o.equal_shapes_p = 0.2
     return o
 
 
@@ -47,7 +49,7 @@ def generate(rng, tier):
         w = build(spec)
     cut = None
     last = w.segs[-1]
-    if not daq and last.end - last.data_pos > 1 and rng.random() < 0.2:
+    if not daq and last.end - last.data_pos > 1 and not spec['segments'][-1].get('short_last') and rng.random() < 0.2:
         cut = rng.randint(last.data_pos + 1, last.end - 1)
     reqs = _lazy.gen_requests(rng, w, tier)
     for r in reqs:
@@ -102,6 +104,7 @@ def execute(case):
             res.ev('open-raises', type(exc).__name__)
             return res
         fulls = {}
+        keeper = ops.Keeper()
         for path, ch in w.chans.items():
             if case['cut'] is None:
                 fulls[path] = _lazy.model_full(ch, raw_ts)
@@ -125,7 +128,7 @@ def execute(case):
                     op['length'] is None or op['offset'] + op['length'] >= n):
                 res.probe('window-in-truncated-last-chunk')
             for mode, tf in (('lazy', lazy), ('eager', eager)):
-                v, g, exc = _lazy.check_op(tf, w, op, full, 'C04', mode)
+                v, g, exc = _lazy.check_op(tf, w, op, full, 'C04', mode, keeper=keeper if mode == 'lazy' else None)
                 res.steps += 1
                 res.compared += 1
                 if g is not None and (g[0] not in ('arr', 'strs', 'rawts') or _lazy.full_len(g) > 0):
@@ -136,6 +139,9 @@ def execute(case):
                 res.ev(i, mode, exc or (digest(g) if g is not None else None))
             if len(res.violations) > 5:
                 break
+        for (label, before, after) in keeper.mutated()[:3]:
+            res.violations.append(V('C04.result-changed-later', 'the array returned by %s changed when later reads ran: was %s, now %s' % (
+                label, _lazy._short(before), _lazy._short(after))))
         lazy.close()
         res.io_events = st.fs.seq
         for k, v_ in st.fs.faults_fired.items():
